@@ -58,6 +58,7 @@ def shared_location_sites(F, fn):
 
 
 def run(ctx):
+    ctx.level = "proof"
     ctx.explanation = ("static, for every schedule: bodies reachable from FlopExhaustiveEvaluator::{new,scope,into_iter} and "
                        "Iterator::next (resolved call graph) contain no static/thread-local access and no user unsafe; every "
                        "type reachable through the fields of the evaluator, its iterator, ranges and showdowns is Freeze, "
